@@ -228,6 +228,9 @@ func typeDecls(c *spec.Case, pkgKey string) string {
 			continue
 		}
 		id := t.ID
+		if t.AliasSpell != "" && pkgKey == "" {
+			fmt.Fprintf(&sb, "type %s = %s\n\n", t.AliasSpell, t.Name)
+		}
 		switch t.Kind {
 		case spec.KStruct:
 			if t.NoHash {
